@@ -130,7 +130,7 @@ def judge_selftest(ck, events, rows_by_i, consts, rnd):
         pool = [e for e in must if rows_by_i[e["i"]]["clauses"] == [k]]
         if pool:
             e = json.loads(json.dumps(rnd.choice(pool)))
-            o = e["outs"][rnd.randrange(len(e["outs"]))]
+            o = rnd.choice([x for x in e["outs"] if x["faithful"]])     # unfaithful outcomes are skipped by the judge
             o["outcome"] = "accepted"
             chosen.append(e)
             expect.append(len(chosen))
@@ -391,7 +391,7 @@ def run(tier):
         trace, events, details, stats = cfglab_loads(rows, ps, "p%d" % ps, sd_)
         for k in totals:
             totals[k] += stats[k]
-        bad, summ, nev = judge(ck, trace, consts, "ConfigTrace: %d rows x 4 renderings, pass %d" % (len(rows), ps))
+        bad, summ, nev = judge(ck, trace, consts, "ConfigTrace: %d rows x 5 renderings, pass %d" % (len(rows), ps))
         os.unlink(trace)
         if nev != len(events):
             raise ToolError("ConfigTrace judged %d of %d events" % (nev, len(events)))
@@ -406,7 +406,7 @@ def run(tier):
                      % (summ["summary"]["unfaithful"], ps, json.dumps(ex)[:400]))
         # non-vacuity: every clause must have rows rejected only because of it, with an accepted repair
         empty = [k for k in CLAUSES if summ["boundary"].get(k, 0) < 1]
-        if empty:
+        if empty and not bad:       # with rejected events the boundary statistics are not meaningful; the violations are reported
             raise ToolError("vacuous: no single-clause row with an accepted one-setting repair for %s "
                             "(the renderer no longer produces configurations the loader accepts?)" % empty)
         for e, d in zip(events, details):
@@ -421,7 +421,8 @@ def run(tier):
                         safe_reject_reasons[o["err"][:70]] = safe_reject_reasons.get(o["err"][:70], 0) + 1
         last = (events, details)
     events, details = last
-    selftest_n = judge_selftest(ck, events, rows_by_i, consts, rnd)
+    # the self-test starts from events the judge accepted (it must then reject exactly the corrupted ones)
+    selftest_n = judge_selftest(ck, [e for e in events if e["i"] not in bad_i], rows_by_i, consts, rnd)
     # samples: one single-clause row per a few clauses, one accepted clause-free row
     shown = set()
     for e, d in zip(events, details):
@@ -450,7 +451,7 @@ def run(tier):
     must_recs = [r for r in srecs if rows_by_i[r["i"]]["must"]]
     safe_recs = [r for r in srecs if not rows_by_i[r["i"]]["must"]]
     safe_started = [r for r in safe_recs if r["result"]["listened_on"]]
-    if safe_recs and not safe_started:
+    if safe_recs and not safe_started and not ck.violations:
         raise ToolError("server-level part is vacuous: none of %d clause-free configurations started listening, e.g. %s"
                         % (len(safe_recs), json.dumps(safe_recs[0]["result"])[:400]))
     per_clause_server = {k: 0 for k in CLAUSES}
